@@ -65,100 +65,4 @@ theorem begTarget_cases {pc' : PC} (h : BegTarget pc') :
   · rename_i c; cases c <;> simp_all [BegTarget]
   · rename_i r; cases r <;> simp_all [BegTarget]
 
-/-- steps of thread `t` that change nothing but its own pc / state byte and lock ownership -/
-theorem Inv.step_plain {s s' : State} {t st idx : Nat} {pc : PC} (h : Inv s) (ht : s.thr[t]? = some ⟨pc, st, idx⟩)
-    (hs : Step s t st idx pc s') (hother : Inv s') : Inv s' := by
-  cases hs
-  case touch => exact h
-  case opSTouch => exact h
-  case opTouch => exact h
-  case beg pc' hb =>
-    rcases begTarget_cases hb with rfl | rfl | rfl | rfl | rfl
-    · plain .poll0 st
-    · plain (.ps0 .nat) st
-    · plain (.ps0 .stw) st
-    · plain .spawnNew st
-    · plain (.park0 .exit) st
-  case pollFast hst => plain .mut st
-  case pollSlowGo hst => plain .pollSlow st
-  case spSwap hst => plain .spB0 4
-  case spN1none hc => plain .spB2 st
-  case spWaitGo ha => plain .spWait st
-  case spSpur => plain .spWoken st
-  case spRelock hb => plain .spB2 st
-  case ps0Ok c hr => plain (.park0 (.scope c)) st
-  case psEndOk c hr =>
-    rcases c with _ | _ | u
-    · plain .mut st
-    · plain .mut st
-    · plain (.spawnGo u) st
-  case parkFast r hst =>
-    have hl0 := h.loc t _ ht
-    rcases r with (_ | _ | u) | _ | _ | _
-    · plain .natIn 1
-    · plain .stwL0 1
-    · plain (.addL0 u) 1
-    · plain .rmL0 1
-    · simp [Loc, StOk, parkRet] at hl0
-    · simp [Loc, StOk, parkRet] at hl0
-  case parkUnlock r =>
-    have hl0 := h.loc t _ ht
-    rcases r with (_ | _ | u) | _ | _ | _
-    · plain .natIn st
-    · plain .stwL0 st
-    · plain (.addL0 u) st
-    · plain .rmL0 st
-    · simp [Loc, StOk, parkRet] at hl0
-    · simp [Loc, StOk, parkRet] at hl0
-  case unpFast r hst =>
-    have hl0 := h.loc t _ ht
-    rcases r with c | _ | _ | _
-    · plain (.psEnd c) 0
-    · simp [Loc, StOk, unpRet] at hl0
-    · plain .mut 0
-    · plain .mut 0
-  case unpSFast r hst =>
-    have hl0 := h.loc t _ ht
-    rcases r with c | _ | _ | _
-    · plain (.psEnd c) 0
-    · simp [Loc, StOk, unpRet] at hl0
-    · plain .mut 0
-    · plain .mut 0
-  case spLeave ha =>
-    have hl0 := h.loc t _ ht
-    have harm := h.armedIff
-    have hst1 : st = 1 := by
-      have hidle : s.phase = .idle := by
-        cases hp : s.phase <;> simp_all
-      simp [Loc, StOk, reqBit_iff, hidle, PhC] at hl0
-      omega
-    plain (.unp0 .slow) st
-  case parkSlowGo r hst => plain (.parkS r) st
-  case parkSlow r hst => plain (.parkB0 r) 3
-  case parkN1none r hc => plain (.parkB2 r) st
-  case natYield => plain (.unp0 (.scope .nat)) st
-  case unpSlowGo r hst => plain (.unpS r) st
-  case unpSWait r hst => plain (.unpB0 r) st
-  case unpLock r hb => plain (.unpB1 r) st
-  case unpWaitGo r ha => plain (.unpWait r) st
-  case unpLeave r ha => plain (.unpS r) st
-  case unpSpur r => plain (.unpWoken r) st
-  case unpRelock r hb => plain (.unpB1 r) st
-  case spawnFetch => plain .addA st
-  case addLock u hlk => plain (.addL1 u) st
-  case addUnlock u => plain (.unp0 (.scope (.add u))) st
-  case stwLock hlk => plain .stwL1 st
-  case armUnlock => plain (.fo 0 0) st
-  case foLock k r hk hb ha => subst hk; plain (.wuB1 r) st
-  case wuWaitGo r hlt => plain (.wuWait r) st
-  case wuSpur r => plain (.wuWoken r) st
-  case wuRelock r hb => plain (.wuB1 r) st
-  case disUnlock => plain .stwUL st
-  case stwUnlock => plain (.unp0 (.scope .stw)) st
-  case rmLock hlk => plain .rmL1 st
-  case rmLoad hli => plain (.rmL1a idx) st
-  case rmNotify => plain .rmL3 st
-  case rmUnlock => plain .dead st
-  all_goals exact hother
-
 end Dora.Stw
